@@ -116,6 +116,7 @@ type Exec struct {
 	mapCounter int64
 	nAssertQ   int
 	nRevived   int
+	lastPauses []PausePoint
 	nAssertConcTrue, nAssertConcFalse int
 	nAssertUnsat int
 	nAssertSat int
@@ -555,6 +556,8 @@ func (ex *Exec) recordCE(kind, id, msg string, pos token.Position, fn string, in
 	if ex.sched != nil && len(ex.sched.pauses) > 0 {
 		// the failure may depend on the schedule: the native confirmation inserts pauses at the preemption points
 		ce.Pauses = append([]PausePoint{}, ex.sched.pauses...)
+	} else if ex.sched == nil && len(ex.lastPauses) > 0 {
+		ce.Pauses = append([]PausePoint{}, ex.lastPauses...)
 	}
 	ex.ces = append(ex.ces, ce)
 	return ce
@@ -576,6 +579,7 @@ func (ex *Exec) runPath(fn *ssa.Function, prefix []int) (res *PathResult, pendin
 	ex.encLockGen = 0
 	ex.deadlocked, ex.leakCheck = false, false
 	ex.sched = nil
+	ex.lastPauses = nil
 	for _, k := range ex.pathNatives {
 		delete(ex.natives, k)
 	}
@@ -644,6 +648,13 @@ func (ex *Exec) runPath(fn *ssa.Function, prefix []int) (res *PathResult, pendin
 		return res, nil
 	}
 	res.Concurrent = ex.nGoroutines > 1
+	if schedTrace {
+		np := 0
+		if ex.sched != nil {
+			np = len(ex.sched.pauses)
+		}
+		fmt.Fprintf(os.Stderr, "PATHEND %s %s pauses=%d\n", res.Outcome, trunc(res.Detail, 80), np)
+	}
 	res.Prefix = append([]int{}, ex.taken...)
 	res.Orders = ex.ordersUsed
 	res.Instr = ex.pathInstr
